@@ -6,6 +6,10 @@
 //   ov <label> <param>* -> <out> [kw] -> "ok <base-rank>"          declare one overload
 //        param = ts:<tp> | sc:<sp> ;  out = <tp> | - ;  kw = kw:* (un-annotated **kwargs collector)
 //        | kw:<tp> (collector with a declared pack pattern); no call ever supplies a keyword
+//        the LAST param may be written *ts:<tp>: a VARIADIC candidate (impl.variadic, that param is the tail
+//        pattern, positional_params = the fixed ones).  Its base rank is operator_rank(params, /*skip tail*/ true),
+//        exactly what make_operator_graph_impl computes.  A call hands it 0.. tail arguments (positional overflow);
+//        a tail argument is a port (ts:<ct>) or a plain value (sc:<st>, promoted to a const: in the model).
 //   perm <label>*                     -> "ok"          register the named overloads, in this order,
 //                                                      under a fresh private operator name
 //   call <arg>*                       -> "solo <l>=ok:<rank>|rej ... ## <perm0 result> ## <perm1 result> ..."
@@ -14,7 +18,8 @@
 //          win:<label>:<rank> ts{..} sc{..} sz{..} out=<ct|-> ev=sel:<label>:<rank>;rej:[l:r,..];amb:[]
 //          err:no-match ev=sel:-;rej:[..];amb:[]
 //          err:ambiguous ev=sel:-;rej:[..];amb:[l:r,..]
-//        (calls that would need scalar->const promotion, which is outside the model: "unsupported")
+//        (calls that would need scalar->const promotion into a FIXED time-series parameter, which is outside
+//         the model: "unsupported")
 //
 // Syntax (no blanks inside one type):
 //   <st>  = bool | int | float | str
@@ -393,6 +398,7 @@ namespace
     {
         std::string               label;
         std::vector<ParamPattern> params;
+        bool                      variadic{false};   // the last entry of params is the tail pattern
         bool                      has_output{false};
         TypePattern               output{};
         bool                      has_kwargs{false};
@@ -406,13 +412,15 @@ namespace
         impl.name       = op_name;
         impl.label      = spec.label;
         impl.params     = spec.params;
+        impl.variadic   = spec.variadic;
+        if (spec.variadic) { impl.positional_params = spec.params.size() - 1; }
         impl.has_output = spec.has_output;
         impl.output     = spec.output;
         impl.has_kwargs         = spec.has_kwargs;
         impl.has_kwargs_pattern = spec.has_kwargs_pattern;
         impl.kwargs_pattern     = spec.kwargs_pattern;
-        // exactly what make_operator_impl does for a C++ candidate
-        impl.rank = operator_dispatch_detail::operator_rank(impl.params);
+        // exactly what make_operator_impl / make_operator_graph_impl do for a C++ candidate
+        impl.rank = operator_dispatch_detail::operator_rank(impl.params, impl.variadic);
         return impl;
     }
 
@@ -536,7 +544,14 @@ int main()
                 {
                     ParamPattern p;
                     p.name = "p" + std::to_string(i - 2);
-                    if (w[i].rfind("ts:", 0) == 0)
+                    if (spec.variadic) { throw ParseError("the variadic parameter must be the last one"); }
+                    if (w[i].rfind("*ts:", 0) == 0)
+                    {
+                        spec.variadic = true;
+                        p.kind        = ParamPattern::Kind::Input;
+                        p.ts          = parse_tp(w[i].substr(4));
+                    }
+                    else if (w[i].rfind("ts:", 0) == 0)
                     {
                         p.kind = ParamPattern::Kind::Input;
                         p.ts   = parse_tp(w[i].substr(3));
@@ -569,7 +584,7 @@ int main()
                 {
                     if (o.label == spec.label) { throw ParseError("duplicate label"); }
                 }
-                const int rank = operator_dispatch_detail::operator_rank(spec.params);
+                const int rank = operator_dispatch_detail::operator_rank(spec.params, spec.variadic);
                 family.push_back(std::move(spec));
                 std::cout << "ok " << rank << "\n";
             }
@@ -611,12 +626,14 @@ int main()
                     else { throw ParseError("bad arg " + w[i]); }
                     args.push_back(std::move(a));
                 }
-                // scalar -> const promotion into a time-series parameter is outside the model
+                // scalar -> const promotion into a FIXED time-series parameter is outside the model
+                // (a plain value in a variadic TAIL is modelled)
                 bool unsupported = false;
                 for (const auto &o : family)
                 {
-                    if (o.params.size() != args.size()) { continue; }
-                    for (std::size_t i = 0; i < args.size(); ++i)
+                    const std::size_t fixed = o.variadic ? o.params.size() - 1 : o.params.size();
+                    if (o.variadic ? args.size() < fixed : o.params.size() != args.size()) { continue; }
+                    for (std::size_t i = 0; i < fixed; ++i)
                     {
                         if (args[i].kind == WiringArg::Kind::Scalar && o.params[i].kind == ParamPattern::Kind::Input)
                         {
